@@ -171,6 +171,15 @@ pub fn configs(prop: &str, thorough: bool) -> Vec<SimConfig> {
                 c.max_ticks = 2;
                 v.push(c);
             }
+            // the same with a sub-second time unit (T = 500 ms): idle timeouts below one second
+            let mut c = full("n2-timeout-subsecond", 2, true);
+            c.idle_timeout = Some(1);
+            c.t_ms = 500;
+            c.max_ticks = 2;
+            c.allow_h2 = false;
+            c.ev_cancel = false;
+            c.ev_dial_fail = false;
+            v.push(c);
             let mut c = full("n3-close-tick-slice", 3, true);
             c.idle_timeout = Some(1);
             c.max_ticks = if thorough { 2 } else { 1 };
@@ -238,6 +247,12 @@ pub fn configs(prop: &str, thorough: bool) -> Vec<SimConfig> {
                 v.push(c);
                 let mut c = full("n2-lax-is-open", 2, true);
                 c.strict_is_open = false;
+                v.push(c);
+                // nothing may be kept idle: a released connection either goes to a waiter (once ready) or is closed
+                let mut c = full("n2-lax-is-open-max0", 2, true);
+                c.strict_is_open = false;
+                c.max_idle_per_host = 0;
+                c.allow_h2 = false;
                 v.push(c);
                 // the same with an idle timeout and the clock moving (virtual tokio time moves with it)
                 let mut c = full("n2-lax-is-open-ticks", 2, true);
@@ -325,7 +340,7 @@ pub(crate) fn replay_json(cfg: &SimConfig, hist: &[Ev]) -> serde_json::Value {
             "name": cfg.name, "origins": cfg.origins, "max_requests": cfg.max_requests, "allow_h1": cfg.allow_h1, "allow_h2": cfg.allow_h2,
             "continue_after_preemption": cfg.continue_after_preemption, "max_idle_per_host": cfg.max_idle_per_host, "idle_timeout": cfg.idle_timeout,
             "split_handshake": cfg.split_handshake, "strict_is_open": cfg.strict_is_open, "ev_cancel": cfg.ev_cancel, "ev_dial_fail": cfg.ev_dial_fail,
-            "ev_close": cfg.ev_close, "ev_upgrade": cfg.ev_upgrade, "max_ticks": cfg.max_ticks, "burst": cfg.burst, "max_depth": cfg.max_depth, "macro_finish": cfg.macro_finish,
+            "ev_close": cfg.ev_close, "ev_upgrade": cfg.ev_upgrade, "max_ticks": cfg.max_ticks, "t_ms": cfg.t_ms, "burst": cfg.burst, "max_depth": cfg.max_depth, "macro_finish": cfg.macro_finish,
         },
         "history": hist.iter().map(|e| e.text()).collect::<Vec<_>>(),
     })
@@ -350,6 +365,7 @@ fn cfg_from_json(v: &serde_json::Value) -> Option<SimConfig> {
         ev_close: b("ev_close"),
         ev_upgrade: b("ev_upgrade"),
         max_ticks: c.get("max_ticks")?.as_u64()? as usize,
+        t_ms: c.get("t_ms").and_then(|x| x.as_u64()).unwrap_or(100_000),
         burst: b("burst"),
         max_depth: c.get("max_depth").and_then(|x| x.as_u64()).map(|x| x as usize),
         macro_finish: b("macro_finish"),
@@ -361,6 +377,19 @@ pub fn replay_file(path: &str, prop: &'static str) -> i32 {
     let text = std::fs::read_to_string(path).expect("replay file");
     let doc: serde_json::Value = serde_json::from_str(&text).expect("json");
     let rp = doc.get("replay").cloned().unwrap_or(doc.clone());
+    if rp.get("engine").and_then(|x| x.as_str()) == Some("c15-builder") {
+        let (_, viols) = crate::schedmc::c01::builder_pool_bound_runs();
+        for (sig, what, _) in &viols {
+            println!("  {sig}: {what}");
+        }
+        return if viols.is_empty() {
+            println!("replay holds");
+            0
+        } else {
+            println!("VIOLATION property={prop} replay={path}");
+            1
+        };
+    }
     let Some(cfg) = cfg_from_json(&rp) else {
         println!("MACHINERY-ERROR replay file has no config");
         return 2;
@@ -422,6 +451,14 @@ pub fn run(args: &Args, prop: &'static str) -> i32 {
     }
     let mut run = Run::new(prop, args.tier, "model_checking");
     let err = run_into(&mut run, prop, args.tier.is_thorough());
+    if prop == "C15" {
+        // the bound a caller configures through the public client builder is the bound in force
+        let (n, viols) = crate::schedmc::c01::builder_pool_bound_runs();
+        run.cov("builder_configuration_runs", n);
+        for (sig, what, rp) in viols {
+            run.violation(sig, what, rp);
+        }
+    }
     let _ = std::panic::take_hook();
     if let Some(m) = err {
         println!("MACHINERY-ERROR {m}");
